@@ -207,6 +207,8 @@ def _bond_labels(m):
 
 
 def _self_match(m):
+    if len(m) > 9:
+        return -1   # bounded: the pure-Python matcher is exponential on many symmetric fragments
     c = 0
     for _ in m.get_mapping(m, automorphism_filter=False):
         c += 1
